@@ -113,7 +113,7 @@ TypeOK(ty, v) ==
 (*  ret  : value being returned; flt : filter condition (TRUE keeps record) *)
 (*  nr   : NR;  fuel: bound on loop iterations and call depth               *)
 (***************************************************************************)
-St0 == [fr |-> << <<>> >>, oos |-> <<>>, rec |-> <<>>, out |-> <<>>, ctl |-> "go", ret |-> Absent, flt |-> TRUE, nr |-> 0, fuel |-> 60]
+St0 == [fr |-> << <<>> >>, oos |-> <<>>, rec |-> <<>>, out |-> <<>>, ctl |-> "go", ret |-> Absent, flt |-> TRUE, nr |-> 0, fuel |-> 60, tee |-> <<>>]
 Fatal(st) == [st EXCEPT !.ctl = "fatal"]
 
 FrameHas(f, name) == \E i \in 1..Len(f) : f[i].name = name
@@ -498,6 +498,8 @@ Exec(P, s, st) ==
                            ELSE [st EXCEPT !.out = @ \o (IF s.by = <<>> THEN EmitTerminal(s.name, v) ELSE EmitBy(s.name, v, s.by, <<>>))]
     \* dump: "prints all defined out-of-stream variables immediately to stdout as JSON" (the harness joins the lines of the
     \* block into one: "D:" and the map as json_stringify prints it)
+    \* tee > "tee.out", $*: "prints the current record to specified file" - the record as it is at that moment
+    [] s.t = "tee"      -> [st EXCEPT !.tee = Append(@, RecText(st.rec))]
     [] s.t = "dump"     -> [st EXCEPT !.out = Append(@, <<"p", "D:" \o Str(M(st.oos))>>)]
     [] s.t = "emitp"    -> LET v == MapGet(st.oos, S(s.name)) IN
                            IF v.k = "absent" THEN st
@@ -525,7 +527,8 @@ Run(P, recs) ==
   LET b == TopBlock(P, P.begin, St0)
       m == RunRecs(P, recs, 1, b)
       e == IF m.ctl = "fatal" THEN m ELSE TopBlock(P, P.end, [m EXCEPT !.rec = <<>>])
-  IN IF e.ctl = "fatal" THEN << <<"fatal">> >> ELSE e.out
+  \* (what `tee > "tee.out", $*` wrote to its file follows the standard output, as items <<"t", record text>>)
+  IN IF e.ctl = "fatal" THEN << <<"fatal">> >> ELSE e.out \o [i \in 1..Len(e.tee) |-> <<"t", e.tee[i]>>]
 
 (***************************************************************************)
 (* Unparse: the program text, with only the parentheses precedence needs    *)
@@ -588,6 +591,7 @@ UnS(s) ==
     [] s.t = "pattern" -> UnE(s.c) \o " " \o UnBlock(s.body)
     [] s.t = "filter" -> "filter " \o UnE(s.e) \o ";"
     [] s.t = "emit"   -> "emit @" \o s.name \o Join([i \in 1..Len(s.by) |-> ", \"" \o s.by[i] \o "\""], "") \o ";"
+    [] s.t = "tee"    -> "tee > \"tee.out\", $*;"
     [] s.t = "dump"   -> "dump;"
     [] s.t = "emitp"  -> "emitp @" \o s.name \o Join([i \in 1..Len(s.by) |-> ", \"" \o s.by[i] \o "\""], "") \o ";"
     [] s.t = "emitf"  -> "emitf " \o Join([i \in 1..Len(s.names) |-> "@" \o s.names[i]], ", ") \o ";"
